@@ -1214,3 +1214,82 @@ def rule_drain_bounds(ctx, rid, F, want, reason):
     ctx.check(want <= have, rid, F, "destructor drain loops cover the retired storage up to %s" % sorted(want), node,
               detail="loop ends found: %s. %s" % (sorted(have), reason), sig="drain-bounds")
     ctx.check(starts_ok, rid, F, "destructor drain loops start at first()", node, sig="drain-start")
+
+
+# ---------------------------------------------------------------------------
+# loops that must visit every element of [first, last)
+# ---------------------------------------------------------------------------
+def cursor_of(F, node):
+    """the loop-carried local the expression is rooted at (X in X->f, *X, X[i])"""
+    vs = root_vars(roots(F, node, F.site_of(node)))
+    vs = [v for v in vs if any(d.kind == "update" for d in rdefs(F).all_defs(v))]
+    return vs[0] if len(vs) == 1 else None
+
+
+def rule_full_range(ctx, rid, F, use_node, what, first_re, last_re, reason):
+    """the element used at `use_node` ranges over the whole [first, last):
+    the cursor's initial value (first) reaches the use without an intervening
+    advance, the cursor advances by ++ only, and the loop ends only at last"""
+    var = cursor_of(F, use_node)
+    if var is None:
+        ctx.bad(rid, F, "%s: element is not addressed through a loop cursor" % what, use_node, sig="range-cursor:" + what)
+        return
+    rd = rdefs(F)
+    site = use_node["_site"] if "_site" in use_node else F.site_of(use_node)
+    reaching = rd.at(var, site)
+    inits = [d for d in reaching if d.kind in ("init", "assign")]
+    ok_init = False
+    for d in inits:
+        rs = roots(F, d.rhs, d.site, expand_loop_vars=False)
+        if any((r[0] == "call" and re.search(first_re, r[1])) for r in rs):
+            ok_init = True
+    ctx.check(ok_init, rid, F, "%s: the first element of the range is covered (cursor reaches the use with its initial value)" % what,
+              use_node, detail="definitions of the cursor reaching the use: %s. %s" % (
+                  [F.text(d.node) for d in reaching if isinstance(d.node, dict) and "k" in d.node], reason), sig="range-first:" + what)
+    ups = [d for d in rd.all_defs(var) if d.kind == "update"]
+    ok_step = all(d.node.get("k") == "un" and d.node.get("op") == "++" for d in ups) and len(ups) == 1
+    ctx.check(ok_step, rid, F, "%s: the cursor advances one element at a time" % what, ups[0].node if ups else use_node,
+              sig="range-step:" + what)
+    lp = Q.innermost_loop_of(F, site[0])
+    ok_end = False
+    if lp:
+        h, body = lp
+        # find the loop's exit condition on the cursor
+        for b in body:
+            t = F.blocks[b].term
+            if not t or not t.get("cond"):
+                continue
+            c = F.strip(t["cond"])
+            if c.get("k") == "bin" and c["op"] == "!=" and any(s not in body for s in F.blocks[b].real_succ()):
+                sides = [F.strip(c["lhs"]), F.strip(c["rhs"])]
+                names = []
+                for sd in sides:
+                    names.append(roots(F, sd, (b, 0), expand_loop_vars=False))
+                has_cursor = any(any(r == ("var", var, r[2]) for r in rs if r[0] == "var") for rs in names) or \
+                    any(var in root_vars(rs) for rs in names)
+                has_last = any(any(r[0] == "call" and re.search(last_re, r[1]) for r in rs) for rs in names)
+                if has_cursor and has_last:
+                    ok_end = True
+    ctx.check(ok_end, rid, F, "%s: the loop ends only when the cursor reaches the end of the range" % what, use_node,
+              detail=reason, sig="range-last:" + what)
+
+
+def rule_scan_ranges(ctx, rid, reason):
+    """HP scans: the LSB pre-check, and the free/keep loop, each visit every retired element"""
+    I = ctx.need("cds::gc::hp::details::basic_smr::inplace_scan")[0]
+    Cl = ctx.need("cds::gc::hp::details::basic_smr::classic_scan")[0]
+    # LSB pre-check: the condition that guards the diversion to classic_scan
+    cs = Q.calls_in(I, r"basic_smr::classic_scan$")
+    tested = False
+    for c in cs:
+        for cond, outcome, text, b in Q.guard_conditions(I, c["_site"]):
+            if outcome and re.search(r"m_n & 1", text):
+                n = I.deref(cond)
+                rule_full_range(ctx, rid, I, n, "LSB pre-check of in-place scan", r"retired_array::first$", r"retired_array::last$",
+                                "An unchecked odd pointer would be treated as 'marked' by the in-place pass: kept although unguarded, "
+                                "then freed with its low bit cleared (wrong address, original never disposed). " + reason)
+                tested = True
+    ctx.check(tested, rid, I, "in-place scan has an LSB pre-check that diverts to classic_scan", cs[0] if cs else None, sig="has-lsb-precheck")
+    for F in (I, Cl):
+        for fr in Q.calls_in(F, FREE):
+            rule_full_range(ctx, rid, F, fr, "free/keep loop of %s" % F.q.split("::")[-1], r"retired_array::first$", r"retired_array::last$", reason)
